@@ -34,6 +34,7 @@ import (
 	"strconv"
 	"strings"
 	"sync"
+	"sync/atomic"
 	"time"
 
 	"github.com/gin-gonic/gin"
@@ -838,6 +839,9 @@ func (e *authEngine) buildServer(kind string, auth bool, registry, withCluster b
 		}
 	}
 	cs := cluster.NewState(&cluster.Node{ID: "n1", ProxyAddr: "127.0.0.1:1", AdminAddr: "127.0.0.1:2"}, logger)
+	// a second cluster node whose admin address is a live listener counting what reaches it:
+	// the target of admin's `?forward=n2`
+	cs.AddNode(&cluster.Node{ID: "n2", Status: cluster.NodeStatusActive, ProxyAddr: "127.0.0.1:1", AdminAddr: peerAdminAddr()})
 	switch kind {
 	case "proxy":
 		s := proxy.NewServer(e.mgr, config.ProxyConfig{AccessLog: log.AccessLogConfig{Level: "info", Disable: true}},
@@ -871,6 +875,23 @@ func (e *authEngine) buildServer(kind string, auth bool, registry, withCluster b
 		return admin.VHandler(s), true
 	}
 	return nil, false
+}
+
+var (
+	peerOnce sync.Once
+	peerSrv  *httptest.Server
+	peerHits atomic.Int64
+)
+
+// peerAdminAddr is the admin address of the fake peer node n2 (one listener per process).
+func peerAdminAddr() string {
+	peerOnce.Do(func() {
+		peerSrv = httptest.NewServer(http.HandlerFunc(func(w http.ResponseWriter, r *http.Request) {
+			peerHits.Add(1)
+			w.WriteHeader(http.StatusOK)
+		}))
+	})
+	return strings.TrimPrefix(peerSrv.URL, "http://")
 }
 
 func routesOf(h http.Handler) []string {
@@ -1292,6 +1313,27 @@ func (e *authEngine) Step(ws []string, o *Out) string {
 		h := e.send(s, ws[2], pathURL(Unhx(ws[3])), nil, r, nil)
 		e.oracleHit(o, ws[1], s, valid, h, strings.Join(ws, " "))
 		o.Count("hit:" + h.class)
+		return "hit " + h.String()
+	case "fwd":
+		// hit with admin's `?forward=<node id>` query
+		if len(ws) != 8 {
+			return "bad-op"
+		}
+		s := e.srvs[ws[1]]
+		r, ok := e.parseReq(ws[5], ws[6], ws[7])
+		if s == nil || !ok {
+			return "bad-op"
+		}
+		valid, _ := e.gtValid(r)
+		before := peerHits.Load()
+		h := e.send(s, ws[2], pathURL(Unhx(ws[3]))+"?forward="+url.QueryEscape(Unhx(ws[4])), nil, r, nil)
+		o.Count("fwd:" + h.class)
+		if s.auth && !valid && peerHits.Load() != before {
+			o.Count("oracle:C09:route")
+			o.Fail("C09", "forwarded-unauthenticated", "an unauthenticated request was forwarded to a peer node: "+strings.Join(ws, " "))
+		} else {
+			e.oracleHit(o, ws[1], s, valid, h, strings.Join(ws, " "))
+		}
 		return "hit " + h.String()
 	case "sweep":
 		if len(ws) != 5 {
@@ -1879,6 +1921,10 @@ func (g *gen) caseSrv(name string) {
 			x, a = g.hdrs([]string{"2", "3"})
 		}
 		g.p("hit %s %s %s %s %s %s", kind, m, Hx(p), x, a, tenant)
+		if kind == "admin" && g.chance(50) && !strings.Contains(p, "/profile") && !strings.Contains(p, "/trace") {
+			// the same request asked to be forwarded: to the peer, to the local node, to nobody
+			g.p("fwd %s %s %s %s %s %s %s", kind, m, Hx(p), Hx(Pick(g.r, []string{"n2", "n2", "n1", "zz"})), x, a, tenant)
+		}
 	}
 }
 
